@@ -16,35 +16,54 @@ def HintKind.id : HintKind → Nat
 
 structure Hint where
   kind : HintKind
-  salt : Bytes
+  salt : Bytes              -- empty: the entry carries no salt (the default salt applies)
   params : Option Bytes     -- only PA-ETYPE-INFO2 carries s2kparams (used when 4 octets long)
+  etype : Option Int := none  -- the etype the first entry names (PA-PW-SALT names none)
   deriving Repr, DecidableEq
 
 structure Sel where
   paID : Nat := 0
   salt : Bytes := []
   params : Option Bytes := none
+  etype : Option Int := none  -- none: the etype that was asked for
   deriving Repr, DecidableEq
 
 namespace Impl
 
-/-- one iteration of the `for _, pa := range pas` loop (after the fix that records `paID`) -/
+/-- one iteration of the `for _, pa := range pas` loop (after the fixes: `paID` is recorded, and the etype
+    named by the hint is remembered unconditionally and resolved after the loop) -/
 def step (s : Sel) (h : Hint) : Sel :=
   if s.paID > h.kind.id then s
   else
     { paID := h.kind.id, salt := h.salt,
       params := if h.kind = .info2 then (match h.params with | some p => some p | none => s.params)
-                else s.params }
+                else s.params,
+      etype := if h.kind = .pwSalt then s.etype else h.etype }
 
 def select (hs : List Hint) : Sel := hs.foldl step {}
 
-/-- the loop as it was before the fix: `paID` is never assigned -/
+/-- the loop as it was before the first fix: `paID` is never assigned -/
 def step_v0 (s : Sel) (h : Hint) : Sel :=
   { paID := 0, salt := h.salt,
     params := if h.kind = .info2 then (match h.params with | some p => some p | none => s.params)
               else s.params }
 
 def select_v0 (hs : List Hint) : Sel := hs.foldl step_v0 {}
+
+/-- the loop before the second fix: the etype in use was switched only when a hint named an etype other
+    than the one asked for, so a hint naming the asked-for etype did not undo an earlier switch -/
+def step_v1 (req : Int) (s : Sel) (h : Hint) : Sel :=
+  if s.paID > h.kind.id then s
+  else
+    { paID := h.kind.id, salt := h.salt,
+      params := if h.kind = .info2 then (match h.params with | some p => some p | none => s.params)
+                else s.params,
+      etype := match h.kind, h.etype with
+               | .pwSalt, _ => s.etype
+               | _, some e => if e ≠ req then some e else s.etype
+               | _, none => s.etype }
+
+def select_v1 (req : Int) (hs : List Hint) : Sel := hs.foldl (step_v1 req) {}
 
 end Impl
 
@@ -54,9 +73,9 @@ namespace Spec
     key selection is: ETYPE-INFO2, followed by ETYPE-INFO, followed by PW-SALT." -/
 def select (hs : List Hint) : Sel :=
   match hs.find? (·.kind = .info2), hs.find? (·.kind = .info), hs.find? (·.kind = .pwSalt) with
-  | some h, _, _ => { paID := 19, salt := h.salt, params := h.params }
-  | none, some h, _ => { paID := 11, salt := h.salt, params := none }
-  | none, none, some h => { paID := 3, salt := h.salt, params := none }
+  | some h, _, _ => { paID := 19, salt := h.salt, params := h.params, etype := h.etype }
+  | none, some h, _ => { paID := 11, salt := h.salt, params := none, etype := h.etype }
+  | none, none, some h => { paID := 3, salt := h.salt, params := none, etype := none }
   | none, none, none => {}
 
 end Spec
